@@ -158,3 +158,48 @@ Proof.
   { clear. induction bits as [|b r IH]; [reflexivity|]. cbn [flat_map]. rewrite app_length, IH. cbn; lia. }
   rewrite L. rewrite shiftl_k. change (2^3) with 8. lia.
 Qed.
+
+(* ---------- the constructor and the encode-then-decode direction ---------- *)
+(* BitString::new succeeds (no assertion failure) exactly on valid arguments *)
+Theorem bit_new_spec unused bits :
+  (bs_valid (unused, bits) -> bit_new unused bits = Ok (unused, bits)) /\
+  (~ bs_valid (unused, bits) -> bit_new unused bits = Panic).
+Proof.
+  unfold bit_new, bs_valid, len. split.
+  - intros [Hu He].
+    destruct (N.leb_spec unused 7) as [_|?]; [|lia]. cbn [andb].
+    destruct bits as [|b r].
+    + rewrite (He eq_refl). reflexivity.
+    + cbn [length]. destruct (N.eqb_spec (N.of_nat (S (length r))) 0) as [?|_]; [lia|]. reflexivity.
+  - intros Hn.
+    destruct (N.leb_spec unused 7) as [Hu|?]; [|reflexivity]. cbn [andb].
+    destruct bits as [|b r].
+    + cbn [length]. change (N.of_nat 0 =? 0) with true. cbn [negb orb].
+      destruct (N.eqb_spec unused 0) as [->|_]; [|reflexivity].
+      exfalso. apply Hn. split; [lia|reflexivity].
+    + exfalso. apply Hn. split; [exact Hu|discriminate].
+Qed.
+
+(* what a valid value writes is accepted again and decodes to the same value
+   (in CER provided the content respects the 1000-octet limit) *)
+Theorem bit_write_decode m v : bs_valid v ->
+  (mode_eqb m Cer && (1000 <? len (bs_write v))) = false ->
+  prim_decode (bit_from_prim m) (bs_write v) = Ok v.
+Proof.
+  destruct v as [unused bits]. intros [Hu He] Hc. rewrite bit_from_prim_spec.
+  unfold bit_decode_spec, bs_write in *. cbn [fst snd] in *. cbv beta iota. rewrite Hc. cbn [orb].
+  destruct (N.ltb_spec 7 unused) as [?|_]; [lia|]. cbn [orb].
+  destruct bits as [|b r].
+  - rewrite (He eq_refl). reflexivity.
+  - unfold len. cbn [length]. destruct (N.eqb_spec (N.of_nat (S (length r))) 0) as [?|_]; [lia|]. reflexivity.
+Qed.
+
+(* in CER a valid value longer than the limit is the only one its own
+   encoding is refused for *)
+Theorem bit_write_decode_cer_long v : bs_valid v -> 1000 < len (bs_write v) ->
+  prim_decode (bit_from_prim Cer) (bs_write v) = CErr.
+Proof.
+  destruct v as [unused bits]. intros _ Hl. rewrite bit_from_prim_spec.
+  unfold bit_decode_spec, bs_write in *. cbn [fst snd] in *. cbv beta iota. cbn [mode_eqb andb].
+  destruct (N.ltb_spec 1000 (len (unused :: bits))) as [_|?]; [|lia]. reflexivity.
+Qed.
